@@ -20,6 +20,7 @@ ROOTS = [
     ("acceptor", "after_logout"), ("initiator", "after_eof"),
     ("acceptor", "after_integrity_drop"),
     ("acceptor", "connected_app_sends_when_active"), ("initiator", "logon_sent_app_sends_when_active"),
+    ("acceptor", "connected_app_disconnects_on_logon"), ("initiator", "logon_sent_app_disconnects_on_logon"),
 ]
 CLASSES = ("logon", "hb", "tr", "rr", "gf", "rs", "logout", "app", "custom")
 DEFECTS = ("ok_at", "ok_above", "low", "low_pd", "bs", "no49", "no56", "bad49", "bad56", "swapped", "no34", "no108", "no98")
@@ -51,9 +52,11 @@ def build_root(role, name):
         return w, mon
     if name.endswith("app_sends_when_active"):
         w.c.send_on_state = "ACTIVE"
+    if name.endswith("app_disconnects_on_logon"):
+        w.c.disconnect_on_logon = True
     w.connect()
     mon["ever_connected"] = True
-    if name in ("connected", "connected_no_logon", "logon_sent") or name.endswith("app_sends_when_active"):
+    if name in ("connected", "connected_no_logon", "logon_sent") or name.endswith("app_sends_when_active") or name.endswith("app_disconnects_on_logon"):
         return w, mon
     w.logon()
     mon["logon_done"] = True
@@ -204,6 +207,10 @@ def apply(w, mon, stim, rootname, role):
             tag = ":".join(map(str, stim[:3]))
             det["callbacks"] = [list(e) for e in newev]
             return V("callback_after_disconnect", tag, "after any disconnect the connection emits no further message callbacks")
+    # the inbound counter does not move once the disconnect has been reported (nothing is processed afterwards)
+    if a["ndisc"] != b["ndisc"] and a["dead"] and c.in_at_disconnect is not None and c.in_at_disconnect != a["E"]:
+        det["inbound_counter_when_disconnect_was_reported"] = c.in_at_disconnect
+        return V("counter_moved_after_disconnect", ":".join(map(str, stim[:3])), "after any disconnect ... (nothing is processed any more)")
     # ---------------- after a disconnect: silence ------------------------------
     if b["dead"] or not mon["ever_connected"]:
         tag = ":".join(map(str, stim[:2]))
